@@ -3,6 +3,11 @@ import Cx.Spec.Utf8
 import Cx.Spec.GoRef
 import Cx.Spec.StdLoops
 import Cx.Model.Loops
+import Cx.Model.Nfa
+import Cx.Model.Swar
+import Cx.Model.Expand
+import Cx.Model.State
+import Cx.Model.Teddy
 /-
   Cx.Driver — line protocol: one request per input line, one canonical answer per output line.
   Every model / spec function that takes part in a correspondence is reachable from here.
@@ -57,6 +62,42 @@ def parseProg (s : String) : Option GoRef.Prog := do
     pure { insts := insts.toArray, start := start, cond := cond, numCap := numCap }
   | _ => none
 
+/-- NFA dump: `sa/su/st;st;…` with states
+    M | B.lo.hi.next | S.lo-hi-next_lo-hi-next… | P.left.right | E.next | C.idx.isStart.next | F | L.kind.next | A.next | N.next -/
+def parseNfa (s : String) : Option Nfa.NFA := do
+  match s.splitOn "/" with
+  | [sa, su, body] =>
+    let sa ← parseNat sa
+    let su ← parseNat su
+    let sts ← (body.splitOn ";").mapM fun tok =>
+      match tok.splitOn "." with
+      | ["M"] => some Nfa.NState.mtch
+      | ["F"] => some Nfa.NState.fail
+      | ["B", lo, hi, nx] => do pure (Nfa.NState.byteRange (← parseNat lo) (← parseNat hi) (← parseNat nx))
+      | ["S", ts] => do
+        let l ← (if ts = "" then some [] else (ts.splitOn "_").mapM fun t =>
+          match t.splitOn "-" with
+          | [lo, hi, nx] => do pure ((← parseNat lo), (← parseNat hi), (← parseNat nx))
+          | _ => none)
+        pure (Nfa.NState.sparse l)
+      | ["P", l, r] => do pure (Nfa.NState.split (← parseNat l) (← parseNat r))
+      | ["E", nx] => do pure (Nfa.NState.eps (← parseNat nx))
+      | ["C", idx, st, nx] => do pure (Nfa.NState.cap (← parseNat idx) (st = "1") (← parseNat nx))
+      | ["L", k, nx] => do
+        let kind ← (match k with
+          | "0" => some Nfa.Look.startText | "1" => some Nfa.Look.endText | "2" => some Nfa.Look.startLine
+          | "3" => some Nfa.Look.endLine | "4" => some Nfa.Look.wordB | "5" => some Nfa.Look.noWordB | _ => none)
+        pure (Nfa.NState.look kind (← parseNat nx))
+      | ["A", nx] => do pure (Nfa.NState.runeAny (← parseNat nx))
+      | ["N", nx] => do pure (Nfa.NState.runeAnyNotNL (← parseNat nx))
+      | _ => none
+    pure { states := sts.toArray, startAnchored := sa, startUnanchored := su }
+  | _ => none
+
+def showSpan : Option (Nat × Nat) → String
+  | none => "nil"
+  | some (s, e) => s!"{s},{e}"
+
 def showOptInts : Option (List Int) → String
   | none => "nil"
   | some l => showIntList l
@@ -95,6 +136,32 @@ def handle (line : String) : String :=
       | "B" => showSpans (Loops.findAllB find spanOf next len (limitOfInt n))
       | "C" => showSpans (Loops.findAllC find spanOf next len)
       | _ => "bad-op"
+    | _, _, _, _ => "bad-op"
+  -- bounded backtracker model on a dumped NFA
+  | ["bt", op, at_, hex, nfa] =>
+    match parseNat at_, parseHex hex, parseNfa nfa with
+    | some at_, some h, some N =>
+      match op with
+      | "ismatch" => toString (Nfa.btIsMatch N h)
+      | "search" => showSpan (Nfa.btSearchAt N h at_)
+      -- all ends e such that (leftmost start from at_, e) is accepted, as "s:e1.e2…" (nil if no match)
+      | "ends" =>
+        match Nfa.btSearchAt N h at_ with
+        | none => "nil"
+        | some (s, _) => s!"{s}:" ++ ".".intercalate (((List.range (h.size + 1)).filter fun e => Nfa.acceptsSpan N h s e).map toString)
+      | _ => "bad-op"
+    | _, _, _ => "bad-op"
+  -- classify a reported end offset `e` for a search from `at_`: end of a match from the leftmost start, from another
+  -- start at or after `at_`, or of no match at all
+  | ["btend", at_, e, hex, nfa] =>
+    match parseNat at_, parseNat e, parseHex hex, parseNfa nfa with
+    | some at_, some e, some h, some N =>
+      match Nfa.btSearchAt N h at_ with
+      | none => "nomatch"
+      | some (s, _) =>
+        if Nfa.acceptsSpan N h s e then "leftmost"
+        else if ((List.range (h.size + 1)).any fun s' => decide (at_ ≤ s') && Nfa.acceptsSpan N h s' e) then "other-start"
+        else "none"
     | _, _, _, _ => "bad-op"
   | _ => "bad-op"
 
